@@ -797,6 +797,9 @@ func TestVerifC13(t *testing.T) {
 		c13RunEpConcurrent(t, stats)
 		c13RunEpLock(t, stats)
 	}
+	if only == "" || only == "hp" {
+		c13RunHp(t, stats)
+	}
 	if only == "" || only == "seq" {
 		c13RunTrk(t, stats)
 		c13RunKrn(t, stats)
